@@ -52,6 +52,7 @@ type Job struct {
 	As       string            `json:"as"`
 	AsDir    string            `json:"as_dir"`
 	PkgName  string            `json:"pkgname"` // rename the package clause (virtual copies)
+	RulesOnly bool             `json:"rules_only"` // apply only the constant rules (no sync/channel rewriting)
 }
 
 type Spec struct {
@@ -405,6 +406,9 @@ func (r *rewriter) rewriteFile(f *ast.File) {
 		return true
 	})
 	for _, d := range f.Decls {
+		if r.job.RulesOnly {
+			break
+		}
 		if fd, ok := d.(*ast.FuncDecl); ok {
 			r.curFunc = fd.Name.Name
 			if fd.Body != nil {
